@@ -385,7 +385,7 @@ theorem mapConform_of_all (env : Env) (O : Oracle) (item : Field) (g : PVal → 
         (ih es hr (fun y hy => hc y (List.mem_cons_of_mem _ hy)))
 
 theorem RTP_val (c : Cfg) (hs : c.env.flat = true) (L : OracleLaws c.O)
-    (hA : c.protoToAny = false ∨ c.env.noAny = true) (f : Nat)
+    (hA : c.protoToAny = false ∨ c.env.noJ5Any = true) (f : Nat)
     (ih : ∀ f' < f + 1, RTP c f') :
     ∀ fld v, fieldSimple fld = true → valOk c.env c.O fld v = true → 5 * v.depth + 1 ≤ f + 1 →
       ∃ t, encValue c.env c.O (f + 1) fld v = .ok t ∧ Dec c fld v t ∧
@@ -474,7 +474,10 @@ theorem RTP_val (c : Cfg) (hs : c.env.flat = true) (L : OracleLaws c.O)
       · rw [hfs]; rfl
       · rw [hfs]; exact hpost
   | any pb =>
-    have hpb : pb = false := by simpa [fieldSimple] using hfs
+    have hpb : pb = false := by
+      cases pb with
+      | false => rfl
+      | true => cases v <;> simp [valOk] at hok
     subst hpb
     obtain ⟨tn, j5, V, rfl, hna, hu, hj, hch, hr, hc, hd'⟩ := valOk_any _ _ v hok
     have hmode : c.protoToAny = false := by
@@ -788,7 +791,7 @@ theorem RTP_obj (c : Cfg) (hs : c.env.flat = true) (L : OracleLaws c.O) (f : Nat
 
 /-- **structure-level round trip with progress**, all fuels -/
 theorem RTP_all (c : Cfg) (hs : c.env.flat = true) (L : OracleLaws c.O)
-    (hA : c.protoToAny = false ∨ c.env.noAny = true) : ∀ f, RTP c f := by
+    (hA : c.protoToAny = false ∨ c.env.noJ5Any = true) : ∀ f, RTP c f := by
   intro f
   induction f using Nat.strongRecOn with
   | _ f ih =>
@@ -802,35 +805,34 @@ theorem RTP_all (c : Cfg) (hs : c.env.flat = true) (L : OracleLaws c.O)
 
 /-- **C01 on trees, flat environments**: the encoder succeeds on every representable message and
 the decoder maps the tree back to exactly that message -/
-theorem roundtrip_tree_flat (c : Cfg) (hs : c.env.flat = true) (L : OracleLaws c.O)
-    (hA : c.protoToAny = false ∨ c.env.noAny = true) (root : String)
+theorem roundtrip_tree_flat_fuel (c : Cfg) (hs : c.env.flat = true) (L : OracleLaws c.O)
+    (hA : c.protoToAny = false ∨ c.env.noJ5Any = true) (root : String)
     (m : Fields)
-    (hok : valOk c.env c.O (.object root) (.msg m) = true ∨ valOk c.env c.O (.oneof root) (.msg m) = true) :
-    ∃ t, encodeTree c.env c.O root (.msg m) = .ok t ∧ decRootTree c root t = .ok m := by
-  unfold encodeTree encFuel
-  simp only [PVal.depth]
+    (hok : valOk c.env c.O (.object root) (.msg m) = true ∨ valOk c.env c.O (.oneof root) (.msg m) = true)
+    (F : Nat) (hF : 6 * (depthFields m + 1) + 9 ≤ F) :
+    ∃ t, encRoot c.env c.O (F + 1) root (.msg m) = .ok t ∧ decRootTree c root t = .ok m := by
   rcases hok with hok | hok
   · obtain ⟨fs, props, hv, hfind, hsort, hfok, hgrp, hexp⟩ := valOk_object _ _ root _ hok
     cases hv
-    obtain ⟨ms, S, henc, hdec, _⟩ := (RTP_all c hs L hA (6 * (depthFields m + 1) + 9)).obj props m
+    obtain ⟨ms, S, henc, hdec, _⟩ := (RTP_all c hs L hA F).obj props m
       (find_rootFlat c.env hs root _ hfind) (find_names_utf8' c.env hs root props (Or.inl hfind))
       hsort hfok hgrp hexp (by omega)
     refine ⟨.obj ms, ?_, ?_⟩
-    · show encRoot c.env c.O (6 * (depthFields m + 1) + 9 + 1) root (.msg m) = .ok (.obj ms)
+    · show encRoot c.env c.O (F + 1) root (.msg m) = .ok (.obj ms)
       simp only [encRoot, hfind]; exact henc
     · simp [decRootTree, hfind, hdec, finishObject, closeOk]
   · obtain ⟨fs, ops, hv, hfind, hsort, hfok, hlen⟩ := valOk_oneof _ _ root _ hok
     cases hv
     have hroot := rootFlat_oneof c.env ops (find_rootFlat c.env hs root _ hfind)
-    have hshape := (RTP_all c hs L hA (6 * (depthFields m + 1) + 9)).one ops m hroot
+    have hshape := (RTP_all c hs L hA F).one ops m hroot
       (find_names_utf8' c.env hs root ops (Or.inr hfind)) (oneof_store_le ops m hroot hlen)
       (oneof_store_facts c ops m hroot hfok) (by omega)
-    have henc : encRoot c.env c.O (6 * (depthFields m + 1) + 9 + 1) root (.msg m) =
-        encOneofBody c.env c.O (6 * (depthFields m + 1) + 9) ops m := by
+    have henc : encRoot c.env c.O (F + 1) root (.msg m) =
+        encOneofBody c.env c.O F ops m := by
       simp only [encRoot, hfind]
-    show ∃ t, encRoot c.env c.O (6 * (depthFields m + 1) + 9 + 1) root (.msg m) = .ok t ∧ _
+    show ∃ t, encRoot c.env c.O (F + 1) root (.msg m) = .ok t ∧ _
     rw [henc]
-    generalize encOneofBody c.env c.O (6 * (depthFields m + 1) + 9) ops m = r at hshape
+    generalize encOneofBody c.env c.O F ops m = r at hshape
     cases hshape with
     | empty hnil =>
       have hfs : m = [] := by
@@ -855,10 +857,20 @@ theorem roundtrip_tree_flat (c : Cfg) (hs : c.env.flat = true) (L : OracleLaws c
       rw [this] at hloop hpost
       simp [decRootTree, hfind, hloop, finishOneof, closeOk, hpost, applyPost]
 
+/-- at the fuel `encodeTree` uses -/
+theorem roundtrip_tree_flat (c : Cfg) (hs : c.env.flat = true) (L : OracleLaws c.O)
+    (hA : c.protoToAny = false ∨ c.env.noJ5Any = true) (root : String)
+    (m : Fields)
+    (hok : valOk c.env c.O (.object root) (.msg m) = true ∨ valOk c.env c.O (.oneof root) (.msg m) = true) :
+    ∃ t, encodeTree c.env c.O root (.msg m) = .ok t ∧ decRootTree c root t = .ok m := by
+  unfold encodeTree encFuel
+  simp only [PVal.depth]
+  exact roundtrip_tree_flat_fuel c hs L hA root m hok (6 * (depthFields m + 1) + 9) (Nat.le_refl _)
+
 /-- **C08 on trees, flat environments**: the tree the encoder writes for a representable message
 has the documented structure -/
 theorem conforms_tree_flat_aux (c : Cfg) (hs : c.env.flat = true) (L : OracleLaws c.O) (W : OracleWire c.O)
-    (hA : c.protoToAny = false ∨ c.env.noAny = true) (root : String) (m : Fields)
+    (hA : c.protoToAny = false ∨ c.env.noJ5Any = true) (root : String) (m : Fields)
     (hok : valOk c.env c.O (.object root) (.msg m) = true ∨ valOk c.env c.O (.oneof root) (.msg m) = true) :
     ∃ t, encodeTree c.env c.O root (.msg m) = .ok t ∧ Wire.RootConforms c.env c.O root m t := by
   unfold encodeTree encFuel
